@@ -282,6 +282,8 @@ def generate(rng, profile='engine'):
             op['single'] = True
         if api == 'expect' and rng.random() < 0.5:
             op['raw'] = True
+            if rng.random() < 0.4:
+                op['same_list'] = True
         ops.append(op)
     if profile == 'eof' and tr in ('pty', 'pxssh', 'fd', 'sock') and rng.random() < 0.15:
         ops.append({'op': 'close'})
@@ -316,6 +318,20 @@ class Violation(object):
         return 'Violation(%s, %s, site=%s)' % (self.clause, self.msg, self.site)
 
 
+def bytes_read_by_cut(r):
+    """Kernel truth: the bytes the code under test has taken from its descriptor so far."""
+    tr = r.scn.get('transport')
+    if tr == 'fd':
+        p = r.fd_pipe.p
+        return bytes(p.log[:len(p.log) - len(p.buf)])
+    if tr in ('pty', 'pxssh'):
+        return bytes(r.pty.out_log[:len(r.pty.out_log) - len(r.pty.out)])
+    if tr == 'sock':
+        rx = r.sock._end.rx
+        return bytes(rx.log[:len(rx.log) - len(rx.buf)])
+    return None
+
+
 def run(scn, clauses=None):
     """Run the scenario; return (violations, info)."""
     def body(r):
@@ -327,6 +343,19 @@ def run(scn, clauses=None):
             if rec['out'] == 'HANG':
                 break
         v = evaluate(r, clauses)
+        if child.encoding is not None and (clauses is None or 'C01' in clauses or 'C07' in clauses):
+            # the text delivered to matching must be the decoding of the bytes taken from the kernel -- whatever was
+            # assigned to the buffer or sent in between (the read decoder's state belongs to the stream alone)
+            raw = bytes_read_by_cut(r)
+            if raw is not None and not v:
+                import codecs
+                want = codecs.getincrementaldecoder(child.encoding)(child.codec_errors).decode(raw, False)
+                got = u''.join(c for c in child.chunks if isinstance(c, str))
+                bad = [o for o in r.ops if o['out'] == 'EXC' and isinstance(o.get('exc'), UnicodeError)]
+                if got != want or bad:
+                    v.append(Violation('C01.decode_truth', 'text delivered to matching differs from the decoding of the bytes read from the '
+                                       'transport' + (' (%s raised)' % type(bad[0]['exc']).__name__ if bad else ''), None,
+                                       {'got': got[-40:], 'want': want[-40:], 'call': {'api': 'decode', 'op': None}}))
         return v, collect_info(r)
     return harness.run_with(scn, body)
 
